@@ -82,7 +82,7 @@ def gen_many_read(rng, focus, prefix):
     if rng.random() < 0.3:
         rl[rng.randrange(len(rl))] = rng.choice("ACGT")
     for j in rng.sample(range(len(rl)), rng.choice([1, 1, 2])):
-        rl[j] = rng.choice("RYKMSW.NXr")
+        rl[j] = rng.choice("RYKMSW.NXrUu")
     rest = rnd_seq(rng, rng.randint(0, 8), "ACGT")
     return "".join(rl) + rest if prefix else rest + "".join(rl)
 
@@ -174,7 +174,7 @@ def gen_read(rng, ads, prefix):
         # other characters that are not N: IUPAC codes, a no-call dot; they count as mismatches like any wrong base
         rl = list(read)
         for j in rng.sample(range(len(rl)), min(len(rl), rng.randint(1, 2))):
-            rl[j] = rng.choice("RYKMSWBDHVX.-r")
+            rl[j] = rng.choice("RYKMSWBDHVX.-rUUu")
         read = "".join(rl)
     return read
 
